@@ -27,21 +27,27 @@ def need_fn(mod, name):
     return f
 
 
-def local_helpers_of(mod, fn):
-    """names of the file-local functions fn reaches (transitively) - the helpers it may have been split into"""
+def local_helpers_of(mod, fn, only=None):
+    """names of the file-local functions fn reaches (transitively) - the helpers it may have been split into.
+    `only`: predicate on a helper; helpers it rejects are neither inlined nor searched"""
     work = [fn]; seen = set()
     while work:
         x = work.pop()
         for c in x.calls():
             h = mod.fn(c.get("callee") or "")
-            if h is not None and h.internal and h.blocks and h.name not in seen and h is not fn:
+            if h is not None and h.internal and h.blocks and h.name not in seen and h is not fn and (only is None or only(h)):
                 seen.add(h.name); work.append(h)
     return sorted(seen)
 
 
-def with_helpers_inlined(mod, fn, config):
+def carries_pointers(h):
+    """a helper that takes or returns a pointer (a cursor, a buffer, an object) - as opposed to a pure function of scalars"""
+    return h.d["ret"].endswith("*") or any(p["t"].endswith("*") for p in h.params)
+
+
+def with_helpers_inlined(mod, fn, config, only=None):
     """(module, function) where fn's file-local helpers have been inlined into it; (None, None) if it has none"""
-    plan = local_helpers_of(mod, fn)
+    plan = local_helpers_of(mod, fn, only)
     if not plan: return None, None
     m2 = lib_module(config, inline=tuple(plan))
     return m2, need_fn(m2, fn.name)
